@@ -1,5 +1,6 @@
 import SSModel.Glue
 import SSLemmas.Glue
+import SSLemmas.GlueConc
 /-!
 C17 — library glue is installed exactly once, in time, module-provided beats built-in.
 Property theorems only; model `SSModel/Glue.lean`, lemmas `SSLemmas/Glue.lean`.
@@ -88,4 +89,46 @@ theorem C17_F16_old_code_witness :
 
 /-- …and the repaired scan on the same history: only the module's own glue, once, and in time. -/
 theorem C17_F16_repaired : (runOpsR f16Static f16Ops).log = [.returned, .ranMod 1, .returned] := by decide
+
+/-! ### Several threads (model `SSModel/GlueConc.lean`)
+
+Any number of threads run the routine as atomic steps (fast-path test, lock, snapshot, the two pops for a name,
+the glue call, cache update), interleaved in any order with imports and removals. -/
+open SS.GlueConc in
+/-- **exactly once under every schedule**: for any number of threads and any interleaving of their steps with
+insertions and removals, no module has glue called twice or both kinds of glue — counting the calls already
+logged *and* the calls a thread has committed to (popped) but not yet made. -/
+theorem C17_conc_once (st : Static) (n : Nat) (sched : List CMove) :
+    (ranOf (crun st n sched).g.log ++ pend (crun st n sched).pcs).Nodup :=
+  (crun_inv st n sched).nodup
+
+open SS.GlueConc in
+theorem C17_conc_once_log (st : Static) (n : Nat) (sched : List CMove) : (ranOf (crun st n sched).g.log).Nodup :=
+  (List.nodup_append.mp (crun_inv st n sched).nodup).1
+
+open SS.GlueConc in
+/-- **module-provided first under every schedule**. -/
+theorem C17_conc_module_first (st : Static) (n : Nat) (sched : List CMove) (m : Mod)
+    (h : Ev.ranBuiltin m ∈ (crun st n sched).g.log) : st.hasModGlue m = false := by
+  apply (crun_inv st n sched).builtinOnlyIfNoMod
+  simp only [builtinRan, List.mem_filterMap]
+  exact ⟨_, h, rfl⟩
+
+open SS.GlueConc in
+/-- **mutual exclusion**: at most one thread is between taking the snapshot and updating the cache. -/
+theorem C17_conc_mutex (st : Static) (n : Nat) (sched : List CMove) (t u : Nat) (p q : PC)
+    (hp : (crun st n sched).pcs[t]? = some p) (hq : (crun st n sched).pcs[u]? = some q)
+    (sp : scanning p = true) (sq : scanning q = true) : t = u := by
+  have h1 := crun_lock st n sched t p hp sp
+  have h2 := crun_lock st n sched u q hq sq
+  rw [h1] at h2; exact Option.some.inj h2
+
+open SS.GlueConc in
+/-- Non-vacuity: two threads racing over a module with both kinds of glue, the second entering while the first is
+inside the glue call — one call, the module's own. -/
+example :
+    let st : Static := { hasModGlue := fun m => m = 1, hasBuiltin := fun m => m = 1, modRaises := fun _ => false, builtinRaises := fun _ => false }
+    let sched : List CMove := [.insert 1, .thread 0, .thread 0, .thread 0, .thread 0, .thread 1, .thread 1, .thread 1,
+                               .thread 0, .thread 0, .thread 0, .thread 1, .thread 1, .thread 1, .thread 1]
+    (crun st 2 sched).g.log = [.ranMod 1, .returned, .returned] := by decide
 
